@@ -21,7 +21,7 @@ def gen_cases(seed, tier):
         for b in (512, 1024, 4096):
             lens += [b - 7, b - 4, b - 1, b, b + 1, b + 4, b + 7]
     else:
-        lens += [63, 64, 65, 127, 128, 129]
+        lens += [63, 64, 65, 127, 128, 129, 511, 512, 513, 520, 777, 1029]      # beyond any plausible chunk size of the absorb loop
     cases = [('lh', n, rng.next() & 0xFFFFFFFF, 0, 0) for n in lens]
     # the order of calls in one process: short after long, descending, repeated lengths (nothing may survive a call)
     short = [5, 6, 7, 4, 9, 12, 3, 8, 13, 1, 0, 15, 16, 17]
